@@ -63,7 +63,43 @@ var mainImports = map[string]string{
 }
 
 // shimPkgs are directories under -shim copied to <repo>/verifshim/<name>.
-var shimPkgs = []string{"vsync", "vatomic", "vnet", "vrand", "vcrand", "vyield", "vflag", "vhttp", "vsignal"}
+var shimPkgs = []string{"vsync", "vatomic", "vnet", "vrand", "vcrand", "vyield", "vflag", "vhttp", "vsignal", "vtime"}
+
+// timeDirs: every non-test source file under these directories that imports "time" gets it from
+// the vtime shim (same clock, plus a count of armed timers: the explorer offers "let time pass" as
+// an event exactly when something is waiting for it). The list is built from the current sources,
+// so a file that starts using timers is covered without anything being registered here.
+var timeDirs = []string{"orcas", "server", "common", "protocol", "handlers/inmem", "handlers/memcached"}
+
+func addTimeRewrites(repo string) {
+	have := map[string]int{}
+	for i, rw := range rewrites {
+		have[rw.file] = i
+	}
+	for _, d := range timeDirs {
+		filepath.Walk(filepath.Join(repo, d), func(path string, info os.FileInfo, err error) error {
+			if err != nil || info.IsDir() || !strings.HasSuffix(path, ".go") || strings.HasSuffix(path, "_test.go") {
+				return nil
+			}
+			f, perr := parser.ParseFile(token.NewFileSet(), path, nil, parser.ImportsOnly)
+			if perr != nil {
+				return nil // the compiler will say so
+			}
+			for _, im := range f.Imports {
+				if p, _ := strconv.Unquote(im.Path.Value); p == "time" {
+					rel, _ := filepath.Rel(repo, path)
+					if i, ok := have[rel]; ok {
+						rewrites[i].imports["time"] = modPath + "/verifshim/vtime"
+					} else {
+						have[rel] = len(rewrites)
+						rewrites = append(rewrites, rewrite{rel, map[string]string{"time": modPath + "/verifshim/vtime"}})
+					}
+				}
+			}
+			return nil
+		})
+	}
+}
 
 func die(f string, a ...interface{}) {
 	fmt.Fprintf(os.Stderr, "overlaygen: "+f+"\n", a...)
@@ -80,6 +116,7 @@ func main() {
 		die("%v", err)
 	}
 	replace := map[string]string{}
+	addTimeRewrites(*repo)
 	for _, rw := range rewrites {
 		src := filepath.Join(*repo, rw.file)
 		fset := token.NewFileSet()
